@@ -76,10 +76,18 @@ type onceState struct {
 	running, done bool
 }
 
-var onceTab = map[*sync.Once]*onceState{}
+// onceTab is a plain slice, not a map: Go's map operations are race-annotated
+// inside the runtime even when this package is compiled without race
+// instrumentation, and the table is shared by all tasks.
+type onceEntry struct {
+	o *sync.Once
+	s *onceState
+}
+
+var onceTab []onceEntry
 
 // ResetOnceTable forgets all sync.Once instances seen so far (between runs).
-func ResetOnceTable() { onceTab = map[*sync.Once]*onceState{} }
+func ResetOnceTable() { onceTab = onceTab[:0] }
 
 // OnceDo replaces o.Do(f). Under the simulator exactly one running task touches
 // onceTab at a time (tasks are run one at a time), so no lock is needed.
@@ -89,13 +97,23 @@ func OnceDo(o *sync.Once, f func()) {
 		o.Do(f)
 		return
 	}
-	s := onceTab[o]
+	var s *onceState
+	for i := range onceTab {
+		if onceTab[i].o == o {
+			s = onceTab[i].s
+			break
+		}
+	}
 	if s == nil {
 		s = &onceState{}
-		onceTab[o] = s
+		onceTab = append(onceTab, onceEntry{o, s})
 	}
 	for {
 		if s.done {
+			// go through the real Once as well: its atomic load is the acquire
+			// that orders the initialiser's writes before this caller's reads
+			// (the race detector must see that edge)
+			o.Do(func() {})
 			return
 		}
 		if !s.running {
